@@ -178,7 +178,10 @@ def draw_args(rng, cls):
             a["azimuth_in_degrees"] = rng.choice([0.0, 33.3, 90.0, awkward(rng), {"t": "npfloat", "v": 12.5}, 45])
     if cls in ("HvsrTraditionalRotDppProcessingSettings", "HvsrAzimuthalProcessingSettings") and maybe(0.8):
         k = rng.randint(2, 4) if rng.random() < 0.8 else 1
-        a["azimuths_in_degrees"] = seq(rng, [float(x) for x in sorted(rng.sample(range(0, 180, 5), k))])
+        az = [float(x) for x in sorted(rng.sample(range(0, 180, 5), k))]
+        if rng.random() < 0.4:
+            az = [x + rng.choice([0.5, 2.5, 0.25]) for x in az]          # azimuths need not be whole degrees
+        a["azimuths_in_degrees"] = seq(rng, az)
     if cls == "HvsrTraditionalRotDppProcessingSettings" and maybe():
         a["ppth_percentile_for_rotdpp_computation"] = rng.choice([0.0, 50.0, 84.0, {"t": "npfloat", "v": 16.0}, 50])
     return a
@@ -208,7 +211,7 @@ def draw_value_for(rng, attr):
     if attr == "azimuth_in_degrees":
         return rng.choice([10.0, 77.7])
     if attr == "azimuths_in_degrees":
-        return seq(rng, [0.0, 45.0, 100.0])
+        return seq(rng, rng.choice([[0.0, 45.0, 100.0], [22.5, 67.5, 112.5], [7.25]]))
     if attr == "ppth_percentile_for_rotdpp_computation":
         return rng.choice([16.0, 50.0])
     if attr == "orient_to_degrees_from_north":
